@@ -555,34 +555,8 @@ func ruleC13(w *World) {
 			w.requireFacts("C13.R1", fnKey(fn)+"/accept", r, fmt.Sprintf("%s >= 0", out), fmt.Sprintf("len(%s) >= %d", key, minKey))
 		}
 		w.check(minKey == 16, "C13.R1", "const:KmacMinKeyLen", token.NoPos, "minimum key length 16", fmt.Sprintf("KmacMinKeyLen is %d", minKey))
-		// init block provenance: the field is exactly bytepad(encodeString(key), 168) and that value is what is absorbed
+		w.ruleKmacInitBlock("C13.R2")
 		bs, _ := w.constInt(hashPath, "cSHAKE128BlockSize")
-		want := fmt.Sprintf("bytepad(encodeString(%s), %d)", key, bs)
-		stored, written := false, false
-		instrs(fn, func(ins ssa.Instruction) {
-			switch x := ins.(type) {
-			case *ssa.Store:
-				if f := addrField(x.Addr); f != nil && f.Name() == "initBlock" {
-					stored = render(x.Val) == want
-					if !stored {
-						w.viol("C13.R2", fnKey(fn)+"/init-block-value", x.Pos(), "init block is `"+render(x.Val)+"`, expected exactly "+want)
-					}
-				}
-			case ssa.CallInstruction:
-				if x.Common().IsInvoke() && x.Common().Method.Name() == "Write" {
-					a := render(x.Common().Args[0])
-					if strings.HasSuffix(a, ".initBlock") {
-						written = true
-					}
-				} else if f := x.Common().StaticCallee(); f != nil && f.Name() == "Write" && len(x.Common().Args) > 1 {
-					if strings.HasSuffix(render(x.Common().Args[1]), ".initBlock") {
-						written = true
-					}
-				}
-			}
-		})
-		w.check(stored, "C13.R2", fnKey(fn)+"/init-block", fn.Pos(), "init block = bytepad(encode_string(key), 168), stored unmodified", "the KMAC init block is not stored as exactly "+want+" (e.g. copied into a fixed-size buffer, truncated or transformed)")
-		w.check(written, "C13.R2", fnKey(fn)+"/init-block-absorbed", fn.Pos(), "constructor absorbs the init block", "constructor does not absorb the stored init block")
 		w.check(bs == 168, "C13.R3", "const:cSHAKE128BlockSize", token.NoPos, "cSHAKE128 rate 168", fmt.Sprintf("cSHAKE128 block size is %d", bs))
 		// customizer and function name
 		cs := callsTo(fn, "NewCShake128")
@@ -874,6 +848,90 @@ func (w *World) ruleBytepad(rule string) {
 		return
 	}
 	w.check(len(bad) == 0, rule, fnKey(fn)+"/least-multiple", fn.Pos(), "bytepad pads to the least multiple of w for every residue", "bytepad does not pad to the least multiple of w (SP 800-185): "+strings.Join(bad, "; ")+" — padlen = "+s)
+}
+
+
+// ruleKmacInitBlock: the KMAC key (for BLS: domain tag ‖ ciphersuite) enters the hash exactly as
+// bytepad(encode_string(key), 168): stored unmodified in the init-block field and absorbed by the
+// constructor, Reset and ComputeHash.  Shared by C01 (tag folded into the key), C13 and C16.
+func (w *World) ruleKmacInitBlock(rule string) {
+	fn := w.fn(hashPath, "NewKMAC_128")
+	if fn == nil {
+		w.undecided(rule, "anchor:NewKMAC_128", token.NoPos, "unresolved anchor: KMAC constructor")
+		return
+	}
+	key := P(fn, 0)
+	bs, _ := w.constInt(hashPath, "cSHAKE128BlockSize")
+	want := fmt.Sprintf("bytepad(encodeString(%s), %d)", key, bs)
+	stored, written := false, false
+	instrs(fn, func(ins ssa.Instruction) {
+		switch x := ins.(type) {
+		case *ssa.Store:
+			if f := addrField(x.Addr); f != nil && f.Name() == "initBlock" {
+				stored = render(x.Val) == want
+				if !stored {
+					w.viol(rule, fnKey(fn)+"/init-block-value", x.Pos(), "init block is `"+render(x.Val)+"`, expected exactly "+want)
+				}
+			}
+		case ssa.CallInstruction:
+			if x.Common().IsInvoke() && x.Common().Method.Name() == "Write" {
+				a := render(x.Common().Args[0])
+				if strings.HasSuffix(a, ".initBlock") {
+					written = true
+				}
+			} else if f := x.Common().StaticCallee(); f != nil && f.Name() == "Write" && len(x.Common().Args) > 1 {
+				if strings.HasSuffix(render(x.Common().Args[1]), ".initBlock") {
+					written = true
+				}
+			}
+		}
+	})
+	w.check(stored, rule, fnKey(fn)+"/init-block", fn.Pos(), "init block = bytepad(encode_string(key), 168), stored unmodified", "the KMAC init block is not stored as exactly "+want+" (e.g. copied into a fixed-size buffer, truncated or transformed): distinct keys/domain tags could collide")
+	w.check(written, rule, fnKey(fn)+"/init-block-absorbed", fn.Pos(), "constructor absorbs the init block", "constructor does not absorb the stored init block")
+	// the field is a slice (variable length), written nowhere else
+	for _, f := range w.srcFuncs(hashPath) {
+		if f == fn || isTestFile(w, f.Pos()) {
+			continue
+		}
+		instrs(f, func(ins ssa.Instruction) {
+			if st, ok := ins.(*ssa.Store); ok {
+				if fld := rootField(st.Addr); fld != nil && fld.Name() == "initBlock" {
+					w.viol(rule, fnKey(f)+"/init-block-rewritten", st.Pos(), "the KMAC init block is modified after construction")
+				}
+			}
+		})
+	}
+	// encodeString / leftEncode feed the whole key: encodeString appends leftEncode(8·len) then all of s
+	if es := w.fn(hashPath, "encodeString"); es != nil {
+		sArg := P(es, 0)
+		var apps []string
+		for _, b := range es.DomPreorder() {
+			for _, ins := range b.Instrs {
+				if c, ok := ins.(*ssa.Call); ok {
+					if bi, ok := c.Call.Value.(*ssa.Builtin); ok && bi.Name() == "append" {
+						apps = append(apps, render(c.Call.Args[1]))
+					}
+				}
+			}
+		}
+		okk := len(apps) == 2 && apps[0] == fmt.Sprintf("leftEncode((len(%s) * 8))", sArg) && apps[1] == sArg
+		w.check(okk, rule, fnKey(es)+"/shape", es.Pos(), "encode_string(S) = left_encode(8·|S|) ‖ S", "encodeString does not append left_encode(8·len) followed by the whole string: "+strings.Join(apps, " ‖ "))
+	}
+	if bp := w.fn(hashPath, "bytepad"); bp != nil {
+		in, wv := P(bp, 0), P(bp, 1)
+		var apps []string
+		for _, b := range bp.DomPreorder() {
+			for _, ins := range b.Instrs {
+				if c, ok := ins.(*ssa.Call); ok {
+					if bi, ok := c.Call.Value.(*ssa.Builtin); ok && bi.Name() == "append" {
+						apps = append(apps, render(c.Call.Args[1]))
+					}
+				}
+			}
+		}
+		okk := len(apps) == 3 && apps[0] == "leftEncode("+wv+")" && apps[1] == in && strings.HasPrefix(apps[2], "make([]byte,")
+		w.check(okk, rule, fnKey(bp)+"/shape", bp.Pos(), "bytepad(X,w) = left_encode(w) ‖ X ‖ 0…", "bytepad does not append left_encode(w), the whole input, then zero padding: "+strings.Join(apps, " ‖ "))
+	}
 }
 
 // ---------------- C14 ----------------
